@@ -28,7 +28,7 @@ Dom(f) ==
     [] f = "rf"     -> {"ok", "name", "badname", "absent", "notls", "port0", "port65536", "nohost", "sctp", "sctpnotls"}
     [] f = "abmf"   -> {"ok", "name", "badname", "absent", "notls", "port0", "port65536", "nohost", "sctp", "sctpnotls"}
     [] f = "cgf"    -> {"ok", "absent", "enabled"}
-    [] f = "mongo"  -> {"ok", "absent", "nourl"}
+    [] f = "mongo"  -> {"ok", "absent", "nourl", "unix"}     \* "unix": the store behind a Unix domain socket (mongodb://%2F...sock)
     [] f = "svc"    -> {"one", "three", "unknown", "empty", "dup", "case"}
     [] f = "nrf"    -> {"ok", "absent", "nourl"}
     [] f = "keylog" -> {"none", "set"}      \* not a member of the file: whether the application is started with a TLS key log path
@@ -41,7 +41,7 @@ Dist(c) == Cardinality({i \in 1..Len(Fields) : c[Fields[i]] # Baseline[Fields[i]
 
 DiamOK(v) == v \in {"ok", "name", "badname", "sctp"} \/ (DEV_TlsOptional /\ v \in {"notls", "sctpnotls"})    \* "name": hostIPv4 given as a host name
 Valid(c) ==
-  /\ c.info = "ok" /\ c.logger = "ok" /\ c.name = "ok" /\ c.nrf = "ok" /\ c.mongo = "ok"
+  /\ c.info = "ok" /\ c.logger = "ok" /\ c.name = "ok" /\ c.nrf = "ok" /\ c.mongo \in {"ok", "unix"}
   /\ c.sbi = "ok" /\ c.scheme \in {"http", "https"}
   /\ (c.scheme = "https" => (c.sbitls = "present" \/ DEV_HttpsWithoutTls))
   /\ DiamOK(c.rf) /\ DiamOK(c.abmf)
